@@ -487,6 +487,7 @@ class Rig:
         self.objs = []      # slot -> object (strong refs for the whole case)
         self._slot = {}     # id(obj) -> slot
         self.sp = []        # stack of nested SessionTransaction objects
+        self.switched_out = set()   # slots deleted by a row switch (a replacement owns their key)
         self.pool = set()      # id(obj): built by the history but never put into a session yet
         self.orphaned_outside = set()   # slots removed from a collection of a parent outside any session
         self.must_live = set() # slots the history explicitly add()ed (or re-added after delete()): persistent after the flush
@@ -899,6 +900,8 @@ def intent_findings(rig, snap, counters=None):
                 else "explicitly-added-object-not-persistent-after-flush")
         out.append(Finding(mech, f"{e['cls']} slot {slot} was add()ed by the history and is {e['kind']} after the flush", {"slot": slot}))
     rig.must_live.clear()
+    rig.orphaned_outside = {sl for sl in rig.orphaned_outside if by_slot.get(sl) is not None and by_slot[sl]["kind"] == "transient"
+                            and id(rig.objs[sl]) in rig.pool}
     return out
 
 
@@ -1096,27 +1099,43 @@ class Interp:
         self._set_slot(slot, o)
         self.rig.pool.add(id(o))
 
-    def op_add(self, slot):
-        """Session.add() of an object built outside the session (its collections cascade)."""
+    def _cascade_clean(self, o):
+        """Everything the save-update cascade reaches from ``o`` is either still outside any
+        session since it was built (pool) or live in this session, and insertable.  An object
+        that already went through a session (rolled back, closed) keeps what happened to it
+        there in memory (documented); attaching it again is S5 staleness."""
         import sqlalchemy as sa
 
-        o = self.obj(slot)
-        self.need(self.pooled(o))
         seen, todo = set(), [o]
-        while todo:   # everything the save-update cascade will reach must be insertable
+        while todo:
             x = todo.pop()
             if id(x) in seen:
                 continue
             seen.add(id(x))
+            if not self.pooled(x):
+                self.need(self.usable(x))
+                continue
             sp = SPEC[type(x).__name__]
             d = sa.inspect(x).dict
             for rel, (targets, nullable) in sp["m2o"].items():
                 self.need(nullable or d.get(rel) is not None)
+                if d.get(rel) is not None:
+                    todo.append(d[rel])
             for rel in sp["colls"]:
                 todo.extend(list(d.get(rel, ())))
+
+    def op_add(self, slot):
+        """Session.add() of an object built outside the session (its collections cascade)."""
+        o = self.obj(slot)
+        self.need(self.pooled(o))
+        self._cascade_clean(o)
         self.s.add(o)
         self._pool_sync()
         self.rig.must_live.add(slot)
+        if slot in self.rig.orphaned_outside:
+            # an orphan of a delete-orphan relationship that is add()ed is INSERTed, and deleted
+            # again by a later flush once it is modified (persistent orphan): judge it now
+            self.s.flush()
 
     def op_undel(self, slot):
         """Session.add() of an object marked with Session.delete() and not flushed yet."""
@@ -1125,10 +1144,25 @@ class Interp:
         o = self.obj(slot)
         st = sa.inspect(o)
         self.need(st.persistent and st.session is self.s and o in self.s.deleted)
+        self.need(slot not in self.rig.switched_out)   # its primary key now belongs to the replacement
+        self.need(slot not in self.rig.let_go)         # released from a delete-orphan parent: an orphan stays deleted
         with self.s.no_autoflush:
+            if type(o).__name__ == "Node" and o.parent is not None:
+                self._node_ok(o.parent, o)             # the walk skips nodes marked deleted: re-check with it alive
+            # marked by the delete cascade of an owner that is still to be deleted: its row
+            # would keep pointing at the owner's row (contradictory input)
+            for y in list(self.s.deleted):
+                if y is not o:
+                    sy = sa.inspect(y)
+                    for o_, m_, st_, d_ in sy.mapper.cascade_iterator("delete", sy):
+                        self.need(o_ is not o)
             for rel, (targets, nullable) in SPEC[type(o).__name__]["m2o"].items():
                 t = getattr(o, rel)
                 self.need(t is None or self.usable(t))   # its row must not point at a row being deleted
+            # add() cascades along loaded collections; one that still lists an object whose
+            # DELETE was already flushed (S1) makes add() raise "has been deleted"
+            for o_, m_, st_, d_ in st.mapper.cascade_iterator("save-update", st):
+                self.need(not st_._deleted)
         self.s.add(o)
         self.rig.must_live.add(slot)
 
@@ -1193,7 +1227,7 @@ class Interp:
             if x is None or id(x) in seen:
                 continue
             self.need(x is not child)
-            if not self.usable(x):
+            if not self.workable(x):
                 seen.add(id(x))
                 continue
             seen.add(id(x))
@@ -1215,6 +1249,31 @@ class Interp:
         for y in self.rig.objs:
             if type(y) is type(o) and y is not o and x in sa.inspect(y).dict.get(rel, ()):
                 raise Skip()
+        if type(x).__name__ == "Note":
+            # one delete-orphan parent (Draft or Folder) at a time: what a flush does with a child
+            # removed from one such parent and held by another depends on flush boundaries
+            if sa.inspect(x).key is not None:
+                self.need(sa.inspect(x).dict.get("draft_id", 0) is None and sa.inspect(x).dict.get("folder_id", 0) is None)
+            for y in self.rig.objs:
+                if type(y).__name__ in ("Draft", "Folder") and y is not o and x in sa.inspect(y).dict.get("notes", ()):
+                    raise Skip()
+
+    def _uni_pending(self, o, rel, x):
+        """Z9: a persistent child removed from one delete-orphan parent and appended to another
+        in the same flush is neither deleted nor un-linked (the append cancels the orphan
+        delete, nothing nulls the FK): reported as an observation, kept out of the histories."""
+        import sqlalchemy as sa
+
+        if SPEC[type(o).__name__]["colls"][rel][1] != "o2m_uni" or sa.inspect(x).key is None:
+            return
+        for y in self.rig.objs:
+            st = sa.inspect(y)
+            if st.session is not self.s:
+                continue
+            for key, _, _ in self.zoo.info(st.mapper).colls:
+                if key in st.dict:
+                    h = st.attrs[key].history
+                    self.need(x not in (h.added or ()) and x not in (h.deleted or ()))
 
     def _moving_pending(self, x):
         """A pending object that changes parents may be dropped by the known delete-orphan
@@ -1224,6 +1283,7 @@ class Interp:
         st = sa.inspect(x)
         if st.key is None and st.session is self.s:
             self.rig.must_live.discard(self.rig.track(x))
+            self.rig.orphaned_outside.discard(self.rig.track(x))
 
     def op_app(self, slot, rel, mslot):
         o, coll = self._coll(slot, rel)
@@ -1232,9 +1292,14 @@ class Interp:
         # takes members that are outside any session; a session parent takes both kinds
         self.need((self.pooled(x) if self.pooled(o) else self.workable(x)) and x not in coll)
         self._uni_ok(o, rel, x)
+        self._uni_pending(o, rel, x)
         self._node_ok(o, x)
         self._pretouch(o, rel, x)
         self._moving_pending(x)
+        if self.pooled(o):
+            self.rig.orphaned_outside.discard(self.rig.track(x))   # it has a parent again
+        elif self.pooled(x):
+            self._cascade_clean(x)
         self._add(coll, x)
         self._pool_sync()
 
@@ -1242,6 +1307,7 @@ class Interp:
         o, coll = self._coll(slot, rel)
         x = self.obj(mslot)
         self.need(x in coll and self.workable(x))
+        self._uni_pending(o, rel, x)
         coll.remove(x)
         self._released(o, x)
 
@@ -1259,11 +1325,18 @@ class Interp:
                     continue
                 self._pretouch(o, rel, x)
                 self._moving_pending(x)
+                if self.pooled(x) and not self.pooled(o):
+                    try:
+                        self._cascade_clean(x)
+                    except Skip:
+                        continue
                 xs.append(x)
         # members that leave the collection must be usable too (no deleted objects juggling)
         for x in list(coll):
             if x not in xs:
                 self.need(self.workable(x))
+        for x in set(list(coll)) ^ set(xs):
+            self._uni_pending(o, rel, x)
         for x in list(coll):
             if x not in xs:
                 self._released(o, x)
@@ -1274,6 +1347,7 @@ class Interp:
         o, coll = self._coll(slot, rel)
         for x in list(coll):
             self.need(self.workable(x))
+            self._uni_pending(o, rel, x)
         for x in list(coll):
             self._released(o, x)
         if isinstance(coll, set):
@@ -1285,6 +1359,7 @@ class Interp:
         o, coll = self._coll(slot, rel)
         self.need(len(coll) > 0 and not isinstance(coll, set))
         self.need(self.workable(coll[-1]))
+        self._uni_pending(o, rel, coll[-1])
         self._released(o, coll[-1])
         coll.pop()
 
@@ -1512,7 +1587,7 @@ class Interp:
             for x in list(getattr(cur, rel)):
                 self.need(self.usable(x) or sa.inspect(x).session is not self.s)
             for x in list(getattr(cur, rel)):
-                self.rig.let_go.add(self.rig.track(x))
+                self._released(cur, x)
             setattr(copy, rel, set(xs) if self.zoo.knobs["m2m_set"] and rel in ("rights", "lefts") else xs)
         merged = self.s.merge(copy)
         self.rig.track(merged)
@@ -1534,6 +1609,7 @@ class Interp:
         for k in SPEC[type(o).__name__]["scalars"]:
             kw.setdefault(k, None)
         self.s.delete(o)
+        self.rig.switched_out.add(slot)
         self._forget_deleted()
         n = type(o)(**kw)
         for rel in SPEC[type(o).__name__]["m2o"]:
@@ -1553,6 +1629,9 @@ class Interp:
         t = mi.tables[0].name
         _, rows = self.rig.read_txn(f"SELECT 1 FROM {t} WHERE {mi.table_pk_keys[t][0][0]} = ?", (value,))
         self.need(not rows)
+        for ckey, _, _ in mi.colls:   # S5: dependents outside the session would not follow the key
+            for x in list(st.dict.get(ckey, ())):
+                self.need(sa.inspect(x).session is self.s)
         self.rig.idents_seen.setdefault(id(o), set()).add(tuple(st.key[1]))
         setattr(o, key, value)
         # flushed at once together with whatever is pending: an unloaded attribute that is
@@ -1573,6 +1652,7 @@ class Interp:
 
     def op_rollback(self):
         self.rig.must_live.clear()
+        self.rig.orphaned_outside.clear()
         self.s.rollback()
         self.rig.sp = []
         self.rig.sync()
@@ -1593,6 +1673,7 @@ class Interp:
 
     def op_close(self):
         self.rig.must_live.clear()
+        self.rig.orphaned_outside.clear()
         import sqlalchemy as sa
 
         self.s.close()
@@ -1794,10 +1875,14 @@ class Gen:
             return None
         return ["m2o", slot, rel, r.choice(cands)]
 
+    use_pool = True   # False: objects still outside the session are left alone
+
     def pool(self, classes=None):
         import sqlalchemy as sa
 
         out = []
+        if not self.use_pool:
+            return out
         for i, o in enumerate(self.rig.objs):
             if id(o) in self.rig.pool and sa.inspect(o).session is None and sa.inspect(o).key is None:
                 n = type(o).__name__
